@@ -397,4 +397,73 @@ def run(F, rep):
         late = _cr5(cfg5, pub[0], c)
         rep.check(not late, 'C05.U2', 'analyseModel|%s@%d' % (render(c)[:40], sum(1 for x in ivc if x.get('l', 0) < c.get('l', 0))), am.where(c), '`%s` is evaluated after the public variables have been created' % render(c)[:60], 'before publication')
 
+    # ------------------------------------------------------------------ V1: an internal variable stays inside its equivalence class
+    rep.rule('C05.V1', 'an AnalyserInternalVariable stands for one class of equivalent variables: AnalyserInternalVariable::setVariable(v) is only called on a freshly created object, on the object that internalVariable(v) returned for '
+                       'that very v, or where areEquivalentVariables(<its current variable>, v) is known to hold; re-pointing it to a variable chosen any other way (e.g. "the variable of the same name in this component") merges or splits '
+                       'classes, and the model type then depends on how variables are named')
+    from engines import facts_x as _fx5, single_def as _sd5
+    import re as _re5
+    n_v1 = 0
+    for g in F.funcs.values():
+        if not g.file.endswith('/analyser.cpp'):
+            continue
+        for c in g.walk():
+            if not (c.get('k') == 'Call' and c.get('mc') and c.get('fn') == 'setVariable' and c.get('cls') == 'libcellml::AnalyserInternalVariable'):
+                continue
+            n_v1 += 1
+            rcv, arg = receiver(c), nth_arg(c, 0)
+            rbase = rcv
+            while rbase is not None and rbase.get('k') == 'Call' and rbase.get('opc') in ('->', '*') and rbase.get('c'):
+                rbase = rbase['c'][0]
+            rtxt, atxt = render(rbase), render(arg)
+            how = None
+            if rbase is not None and rbase.get('k') == 'Ref' and rbase.get('dk') == 'local':
+                i_ = _sd5(g, rbase.get('d'))
+                ir = render(i_) if i_ is not None else ''
+                if i_ is not None and (any(x.get('k') == 'New' and 'AnalyserInternalVariable' in (x.get('t') or '') for x in walk(i_))
+                                       or any(x.get('k') == 'Call' and x.get('fn') in ('create', 'make_shared') and 'AnalyserInternalVariable' in (x.get('rt') or '') for x in walk(i_))):
+                    how = 'fresh object'
+                elif i_ is not None and any(x.get('k') == 'Call' and x.get('fn') == 'internalVariable' and render(nth_arg(x, 0)) == atxt for x in walk(i_)):
+                    how = 'the object internalVariable(%s) returned' % atxt
+            if how is None:
+                for t, tr in (_fx5(F, g, c) or set()):
+                    m_ = _re5.search(r'areEquivalentVariables\((.*), (.*)\)$', t)
+                    if m_ and tr and {m_.group(1), m_.group(2)} == {rtxt + '->mVariable', atxt}:
+                        how = 'under ' + t[:60]
+            rep.check(how is not None, 'C05.V1', '%s|%s' % (g.short.split('::')[-1], render(c)[:50]), g.where(c),
+                      '%s re-points the internal variable `%s` to `%s` although that variable is not known to be equivalent to the one it stands for (no areEquivalentVariables(%s->mVariable, %s) fact holds here)' % (g.short, rtxt, atxt, rtxt, atxt), how)
+    if n_v1 < 3:
+        raise AnalysisBroken('C05.V1: only %d calls of AnalyserInternalVariable::setVariable found (3 confirmed)' % n_v1)
+
+    # ------------------------------------------------------------------ N1: siblings of an NLA system share its index
+    rep.rule('C05.N1', 'AnalyserInternalEquation::mNlaSystemIndex is written in two ways only: a fresh number (++counter) for an equation that has none yet (tested == MAX_SIZE_T), or a copy of the index of the equation into whose '
+                       'mNlaSiblings the written equation has just been entered; anything else (the running counter, say) lets the equations of one system carry different indices when systems are interleaved in the model')
+    n_n1 = 0
+    for g in F.funcs.values():
+        if not g.file.endswith('/analyser.cpp'):
+            continue
+        for a in g.walk():
+            if not (a.get('k') == 'Bin' and a.get('op') == '=' and a['c'][0].get('k') == 'Member' and a['c'][0].get('n') == 'mNlaSystemIndex' and 'AnalyserInternalEquation' in (a['c'][0].get('q') or '')):
+                continue
+            n_n1 += 1
+            tgt = render(a['c'][0]['c'][0]) if a['c'][0].get('c') else 'this'
+            rhs = a['c'][1]
+            while rhs.get('k') in ('Paren', 'Cast') and len(rhs.get('c', [])) == 1:
+                rhs = rhs['c'][0]
+            how = None
+            if rhs.get('k') == 'Un' and rhs.get('op') == '++':
+                fx = _fx5(F, g, a) or set()
+                if any(tr and t.startswith(tgt.replace('operator->', '')) and 'mNlaSystemIndex == ' in t and 'MAX_SIZE_T' in t for t, tr in fx) or any(tr and ('%s->mNlaSystemIndex == ' % tgt.split('.operator')[0]) in t for t, tr in fx):
+                    how = 'fresh number for an equation that has none'
+            elif rhs.get('k') == 'Member' and rhs.get('n') == 'mNlaSystemIndex':
+                src = render(rhs['c'][0]) if rhs.get('c') else 'this'
+                blk = g.parent(g.parent(a)) if g.parent(a) is not None and g.parent(a).get('k') != 'Compound' else g.parent(a)
+                pushes = [x for x in walk(blk or a) if x.get('k') == 'Call' and x.get('fn') in ('push_back', 'emplace_back') and 'mNlaSiblings' in render(receiver(x)) and render(receiver(x)).startswith(src.split('.operator')[0])
+                          and render(nth_arg(x, 0)) == tgt.split('.operator')[0].replace('->', '') ]
+                if pushes and g.cfg().node_dominates(pushes[0], a):
+                    how = 'copy of the index of the equation it has just become a sibling of'
+            rep.check(how is not None, 'C05.N1', '%s|%s' % (g.short.split('::')[-1], render(a)[:60]), g.where(a),
+                      '%s: `%s` is neither a fresh number for an equation without index nor a copy of the index of the equation whose sibling it has just become' % (g.short, render(a)[:70]), how)
+    if n_n1 < 2:
+        raise AnalysisBroken('C05.N1: only %d writes of mNlaSystemIndex found in analyser.cpp (2 confirmed)' % n_n1)
 
